@@ -101,6 +101,8 @@ impl InnerWalWriter {
         );
         self.flush_and_close()?;
         self.current_log_id += 1;
+        #[cfg(sneldb_verif)]
+        crate::verif_hooks::vpd("wal_rotating", &self.current_log_id.to_string());
         self.start_next_log_file()
     }
 
@@ -128,6 +130,8 @@ impl InnerWalWriter {
             }
 
             self.entries_written += 1;
+            #[cfg(sneldb_verif)]
+            crate::verif_hooks::vp("wal_written");
             debug!(
                 target: "inner_wal_writer::append_immediate",
                 timestamp = entry.timestamp, total = self.entries_written,
